@@ -350,6 +350,8 @@ def slice_(t, lo, hi):
     n = length_of(t)
     if lo == NONE:
         lo = const(0)
+    if lo == const(0) and hi == NONE and tag(t) not in ('phi', 'raise'):
+        return t        # t[0:] / t[:] of a sequence is an equal sequence
     if is_const(lo) and is_const(hi) and (lo[1] is None or isinstance(lo[1], int)) \
             and (hi[1] is None or isinstance(hi[1], int)):
         a, b = lo[1], hi[1]
